@@ -69,7 +69,7 @@ def gen_dist(seed, shard, n, nuser):
             from pymeeus.Earth import IAU76
             e = Earth(IAU76)
             e.set(ell)
-        kind = rng.choice(["random", "random", "equator", "meridian", "same", "near", "far"])
+        kind = rng.choice(["random", "random", "equator", "meridian", "same", "near", "far", "overpole"])
         lon1, lat1 = rng.uniform(-180, 180), rng.uniform(-89, 89)
         lon2, lat2 = rng.uniform(-180, 180), rng.uniform(-89, 89)
         if kind == "equator":
@@ -82,6 +82,11 @@ def gen_dist(seed, shard, n, nuser):
             lon2, lat2 = lon1, lat1
         elif kind == "near":
             lon2, lat2 = lon1 + rng.choice([1e-7, 1e-5, 1e-3]), lat1 + rng.choice([0.0, 1e-7, 1e-5])
+        elif kind == "overpole":
+            # opposite meridians: the connecting meridian runs over a pole; also nearly (not exactly) antipodal pairs
+            lon2 = lon1 + 180.0 if lon1 < 0 else lon1 - 180.0
+            lat2 = -lat1 + rng.choice([1, -1]) * rng.choice([1e-5, 1e-4, 1e-3, 0.01, 0.1, 1.0, 5.0, 30.0, 80.0])
+            lat2 = max(-89.9, min(89.9, lat2))
         elif kind == "far":
             lon2, lat2 = lon1 + 180.0 - rng.choice([0.0, 0.5, 3.0, 10.0]), -lat1 + rng.choice([0.0, 0.5, 3.0])
         conv = rng.random() if kind not in ("same", "near") else 1.0      # (x % 360 is not exactly congruent to x in floats)
@@ -117,6 +122,19 @@ def gen_dist(seed, shard, n, nuser):
             for i in range(1, m):
                 acc += (4 if i % 2 else 2) * e.rm(lo + i * hstep)
             ev.update(mer=1, dint=fx(acc * math.radians(hstep) / 3.0))
+        if kind == "overpole" and lat1 + lat2 != 0.0:
+            # the meridian through both points passes over the nearer pole (lat1 + lat2 > 0: the north pole)
+            pole = 90.0 if lat1 + lat2 > 0 else -90.0
+            tot = 0.0
+            for la in (lat1, lat2):
+                lo, hi = min(la, pole), max(la, pole)
+                m = 400
+                hstep = (hi - lo) / m
+                acc = e.rm(lo) + e.rm(hi)
+                for i in range(1, m):
+                    acc += (4 if i % 2 else 2) * e.rm(lo + i * hstep)
+                tot += acc * math.radians(hstep) / 3.0
+            ev.update(mer=1, dint=fx(tot))
         if 1e-9 < sig < math.radians(170.0):
             ev.update(gc=1, sig=fx(sig))
         yield ev
